@@ -1,15 +1,15 @@
 SPECIFICATION Spec
 CONSTANTS
-  Geoms <- GeomsSwap
+  Geoms <- GeomsCover
   MaxDepth = 1
   WideDepth = 1
-  WideGids <- Gids13
+  WideGids <- Gids1
   NarrowOps <- OpsN
   NarrowArity = 2
-  MaxArity = 3
+  MaxArity = 2
   Lanes = TRUE
   Record = FALSE
-  Bug = "noswapback"
+  Bug = "none"
 INVARIANT RoutesAgree
 INVARIANT NamingKept
 INVARIANT TypeOK
